@@ -430,3 +430,24 @@ func TestF20_AddEdgeAbsentVertex(t *testing.T) {
 		t.Fatalf("half of an edge to an absent vertex was stored: %v", out)
 	}
 }
+
+// F21 (C18, C20): Dijkstra summed int weights in int32: a path of length 2^31 was reported as negative.
+func TestF21_DijkstraInt32(t *testing.T) {
+	var g graph.Graph
+	for _, v := range []string{"s", "a", "b"} {
+		g.Add(v)
+	}
+	g.AddEdgeWeighted("s", "a", 1<<30)
+	g.AddEdgeWeighted("a", "b", 1<<30)
+	dist, edgeTo := g.Dijkstra("s")
+	if dist["b"] != 1<<31 {
+		t.Fatalf("distance of b: %d, want %d", dist["b"], 1<<31)
+	}
+	if edgeTo["b"] != "a" {
+		t.Fatalf("predecessor of b: %v", edgeTo["b"])
+	}
+	topo, _ := g.TopoShortestPath(g.KahnSort())
+	if topo["b"] != dist["b"] {
+		t.Fatalf("TopoShortestPath %d and Dijkstra %d disagree", topo["b"], dist["b"])
+	}
+}
